@@ -68,7 +68,7 @@ func TestC20Lookup(t *testing.T) {
 		if err := w.pr.CancelJob(job.ID); err != nil {
 			rt.Fatalf("cancel: %v", err)
 		}
-		v, ok := w.waitDone(job.ID, kt+20*time.Second)
+		v, ok := w.waitReported(job.ID, kt+20*time.Second)
 		took := time.Since(tCancel)
 		if !ok {
 			rt.Fatalf("[C20] a job canceled %dus after the first command of its task ended (second command up: %v; PATH with %d directories that do not exist) is not reported finished %s after the cancel, kill timeout %s", afterUs, upAtCancel > 0, nDirs, took.Round(100*time.Millisecond), kt)
